@@ -279,26 +279,34 @@ Proof.
   intros k' N. rewrite key_eqb_neq; auto.
 Qed.
 
-Definition user_key (k : acct_key) : Prop := fst (fst k) <> MODULE.
+Definition user_key (k : acct_key) : Prop := 0 <= fst (fst k).
+
+Lemma user_not_module : forall k, user_key k -> fst (fst k) <> MODULE /\ fst (fst k) <> ERC20MOD.
+Proof. unfold user_key, MODULE, ERC20MOD; intros; lia. Qed.
+
+Ltac notmod Uk := let U1 := fresh in let U2 := fresh in destruct (user_not_module _ Uk) as [U1 U2]; ((apply U1; reflexivity) || (apply U2; reflexivity)).
 
 (* a cancel pays exactly amount + fee to the creator, in the token's base denom, and touches no other user balance *)
-Theorem refund_exact : forall s id who s' evs, Inv s -> who <> MODULE -> accepted s (Cancel id who) s' evs ->
+Theorem refund_exact : forall s id who s' evs, Inv s -> 0 <= who -> accepted s (Cancel id who) s' evs ->
   exists x, In x (pool s) /\ tx_id x = id /\ tx_sender x = who /\
     get_bal (bal s') (who, tx_token x, 0) = get_bal (bal s) (who, tx_token x, 0) + (tx_amount x + tx_fee x) /\
     (forall k, user_key k -> k <> (who, tx_token x, 0) -> get_bal (bal s') k = get_bal (bal s) k).
 Proof.
   intros s id who s' evs I NM A. apply accepted_exec in A. simpl in A.
   destruct (cancel_spec _ _ _ _ _ (inv_pool_nodup _ I) A) as (x & Hin & Hid & Hs & _ & _ & _ & _ & _ & _ & _ & _ & k & _ & B).
+  assert (NM' : who <> MODULE) by (unfold MODULE; lia).
   exists x. repeat split; auto; unfold bridge_to_base in B; destruct k; mon;
-    destruct (get_debit _ _ _ _ H) as (_ & _ & O).
+    try (destruct (get_debit _ _ _ _ H) as (_ & _ & O)).
   - rewrite get_credit_same, O; auto. intro E; inv E; auto.
   - rewrite get_credit_same, O; auto. intro E; inv E; auto.
-  - intros k Uk Nk. rewrite get_credit_other, O; auto. intro E; subst k; apply Uk; reflexivity.
-  - intros k Uk Nk. rewrite get_credit_other, O; auto. intro E; subst k; apply Uk; reflexivity.
+  - rewrite get_credit_same, get_credit_other; auto. intro E; inv E; auto.
+  - intros k Uk Nk. rewrite get_credit_other, O; auto. intro E; subst k; notmod Uk.
+  - intros k Uk Nk. rewrite get_credit_other, O; auto. intro E; subst k; notmod Uk.
+  - intros k Uk Nk. rewrite !get_credit_other; auto. intro E; subst k; notmod Uk.
 Qed.
 
 (* a fee increase: the payer pays exactly the added fee in the offered denom, the entry's fee grows by it, nothing else changes *)
-Theorem fee_exact : forall s id who add token which s' evs, Inv s -> who <> MODULE ->
+Theorem fee_exact : forall s id who add token which s' evs, Inv s -> 0 <= who ->
   accepted s (IncreaseFee id who add token which) s' evs ->
   0 < add /\
   (exists w, get_bal (bal s') (who, token, w) = get_bal (bal s) (who, token, w) - add /\
@@ -311,57 +319,67 @@ Proof.
   intros s id who add token which s' evs I NM A. apply accepted_exec in A. simpl in A.
   destruct (increase_spec _ _ _ _ _ _ _ _ (inv_pool_nodup _ I) A)
     as (Ha & x & L & Hin & Hid & Ht & P & P' & Eb & Ec & Et & Enb & Enc & Eo & Ev & k & _ & B).
+  assert (NM' : who <> MODULE) by (unfold MODULE; lia).
   repeat split; auto.
   - unfold pay_added_fee in B. destruct k; mon.
     + destruct (get_debit _ _ _ _ H) as (_ & D & O). exists 0. split.
       * rewrite get_credit_other, D; auto. intro E; inv E; auto.
-      * intros k Uk Nk. rewrite get_credit_other, O; auto. intro E; subst k; apply Uk; reflexivity.
+      * intros k Uk Nk. rewrite get_credit_other, O; auto. intro E; subst k; notmod Uk.
+    + destruct (get_debit _ _ _ _ B) as (_ & D & O). exists 1. split; auto.
     + destruct (get_debit _ _ _ _ B) as (_ & D & O). exists 1. split; auto.
   - exists x, L. auto.
 Qed.
 
-(* a refund of an outgoing bridge call credits the refund address with exactly the locked amount of every token *)
-Definition refund_which (k : tkind) : Z := match k with KNative => 0 | KExt => 1 end.
+(* a refund of an outgoing bridge call credits the REFUND address with exactly the locked amount of every token:
+   in the bank for a call created by MsgBridgeCall, as ERC-20 tokens for a call created by the precompile *)
+Definition refund_which (k : tkind) (msg : bool) : Z :=
+  match k with KNative => 0 | KExt => 1 | KCoin => if msg then 0 else 2 end.
 
-Lemma refund_coins_other : forall ts coins l r l', refund_coins ts l r coins = ROk l' ->
+Lemma refund_coins_other : forall ts msg coins l r l', refund_coins ts msg l r coins = ROk l' ->
   forall k, user_key k -> fst (fst k) <> r -> get_bal l' k = get_bal l k.
 Proof.
   induction coins as [|[t a] rest IH]; simpl; intros l r l' H k Uk Nk; [inv H; auto|].
+  pose proof (user_not_module _ Uk) as [N1 N2].
   destruct (kind_of ts t) as [kd|]; [|discriminate]. destruct (a <=? 0); [eauto|]. destruct kd.
   - mon. rewrite (IH _ _ _ H k Uk Nk). destruct (get_debit _ _ _ _ H0) as (_ & _ & O).
     rewrite get_credit_other, O; auto; intro E; subst k; simpl in *; auto.
-  - rewrite (IH _ _ _ H k Uk Nk). rewrite get_credit_other; auto. intro E; subst k; simpl in *; auto.
+  - destruct msg; [|discriminate]. rewrite (IH _ _ _ H k Uk Nk). rewrite get_credit_other; auto. intro E; subst k; simpl in *; auto.
+  - destruct msg; rewrite (IH _ _ _ H k Uk Nk); rewrite !get_credit_other; auto; intro E; subst k; simpl in *; auto.
 Qed.
 
-Fixpoint credited (ts : list (Z * tkind)) (coins : list (Z * Z)) (t w : Z) : Z :=
+Fixpoint credited (ts : list (Z * tkind)) (msg : bool) (coins : list (Z * Z)) (t w : Z) : Z :=
   match coins with
   | [] => 0
   | (t', a) :: r =>
-      (if (t' =? t) && (0 <? a) && (match kind_of ts t' with Some kd => refund_which kd =? w | None => false end) then a else 0)
-      + credited ts r t w
+      (if (t' =? t) && (0 <? a) && (match kind_of ts t' with Some kd => refund_which kd msg =? w | None => false end) then a else 0)
+      + credited ts msg r t w
   end.
 
-Lemma refund_coins_sum : forall ts coins l r l', r <> MODULE -> refund_coins ts l r coins = ROk l' ->
-  forall t w, get_bal l' (r, t, w) = get_bal l (r, t, w) + credited ts coins t w.
+Lemma refund_coins_sum : forall ts msg coins l r l', 0 <= r -> refund_coins ts msg l r coins = ROk l' ->
+  forall t w, get_bal l' (r, t, w) = get_bal l (r, t, w) + credited ts msg coins t w.
 Proof.
   induction coins as [|[t0 a0] rest IH]; simpl; intros l r l' NM H t w; [inv H; lia|].
+  assert (N1 : r <> MODULE) by (unfold MODULE; lia). assert (N2 : r <> ERC20MOD) by (unfold ERC20MOD; lia).
   destruct (kind_of ts t0) as [kd|] eqn:K; [|discriminate].
   destruct (a0 <=? 0) eqn:E0.
   - apply Z.leb_le in E0. rewrite (IH _ _ _ NM H t w).
     assert ((0 <? a0) = false) by (apply Z.ltb_ge; lia). rewrite H0, andb_false_r. simpl. lia.
   - apply Z.leb_gt in E0. assert (P : (0 <? a0) = true) by (apply Z.ltb_lt; lia). rewrite P, andb_true_r.
+    assert (G : forall l1 w0, refund_coins ts msg (credit l1 (r, t0, w0) a0) r rest = ROk l' ->
+                (forall k', fst (fst k') = r -> get_bal l1 k' = get_bal l k') ->
+                get_bal l' (r, t, w) = get_bal l (r, t, w) + ((if (t0 =? t) && (w0 =? w) then a0 else 0) + credited ts msg rest t w)).
+    { intros l1 w0 H1 Same. rewrite (IH _ _ _ NM H1 t w).
+      destruct ((t0 =? t) && (w0 =? w)) eqn:C.
+      - apply andb_true_iff in C. destruct C as [C1 C2]. apply Z.eqb_eq in C1, C2. subst t w.
+        rewrite get_credit_same, Same; auto. lia.
+      - rewrite get_credit_other, Same; [lia | reflexivity |]. intro E; inv E. rewrite !Z.eqb_refl in C; discriminate. }
     destruct kd; cbn [refund_which].
-    + mon. rewrite (IH _ _ _ NM H t w). destruct (get_debit _ _ _ _ H0) as (_ & _ & O).
-      destruct ((t0 =? t) && (0 =? w)) eqn:C.
-      * apply andb_true_iff in C. destruct C as [C1 C2]. apply Z.eqb_eq in C1, C2. subst t w.
-        rewrite get_credit_same, O; [rewrite ?Z.eqb_refl; simpl; lia|]. intro E; inv E; auto.
-      * rewrite get_credit_other, O; [cbv iota; lia| |]; intro E; inv E; try (apply NM; reflexivity);
-          rewrite !Z.eqb_refl in C; discriminate.
-    + rewrite (IH _ _ _ NM H t w).
-      destruct ((t0 =? t) && (1 =? w)) eqn:C.
-      * apply andb_true_iff in C. destruct C as [C1 C2]. apply Z.eqb_eq in C1, C2. subst t w.
-        rewrite get_credit_same. rewrite ?Z.eqb_refl; simpl; lia.
-      * rewrite get_credit_other; [cbv iota; lia|]. intro E; inv E. rewrite !Z.eqb_refl in C; discriminate.
+    + mon. destruct (get_debit _ _ _ _ H0) as (_ & _ & O). apply (G x 0 H).
+      intros k' Ek. apply O. intro E; subst k'; simpl in Ek; congruence.
+    + destruct msg; [|discriminate]. apply (G l 1 H). auto.
+    + destruct msg.
+      * apply (G _ 0 H). intros k' Ek. rewrite get_credit_other; auto. intro E; subst k'; simpl in Ek; congruence.
+      * apply (G _ 2 H). intros k' Ek. rewrite !get_credit_other; auto; intro E; subst k'; simpl in Ek; congruence.
 Qed.
 
 Lemma coins_valid_in : forall coins prev t a, coins_valid prev coins = true -> In (t, a) coins -> prev < t /\ 0 < a.
@@ -372,40 +390,43 @@ Proof.
   destruct (IH _ _ _ Vr H). lia.
 Qed.
 
-Lemma credited_above : forall ts coins prev t w, coins_valid prev coins = true -> t <= prev -> credited ts coins t w = 0.
+Lemma credited_above : forall ts msg coins prev t w, coins_valid prev coins = true -> t <= prev -> credited ts msg coins t w = 0.
 Proof.
   induction coins as [|[t0 a0] rest IH]; simpl; intros prev t w V L; auto.
   apply andb_true_iff in V. destruct V as [V Vr]. apply andb_true_iff in V. destruct V as [Vp Va]. apply Z.ltb_lt in Vp.
   assert ((t0 =? t) = false) by (apply Z.eqb_neq; lia). rewrite H. simpl. eapply IH; eauto. lia.
 Qed.
 
-Lemma credited_valid : forall ts coins prev t a kd, coins_valid prev coins = true -> In (t, a) coins ->
-  kind_of ts t = Some kd -> credited ts coins t (refund_which kd) = a.
+Lemma credited_valid : forall ts msg coins prev t a kd, coins_valid prev coins = true -> In (t, a) coins ->
+  kind_of ts t = Some kd -> credited ts msg coins t (refund_which kd msg) = a.
 Proof.
   induction coins as [|[t0 a0] rest IH]; simpl; intros prev t a kd V H K; [contradiction|].
   pose proof V as V0. apply andb_true_iff in V. destruct V as [V Vr]. apply andb_true_iff in V. destruct V as [Vp Va].
   apply Z.ltb_lt in Vp, Va. destruct H as [H|H].
   - inv H. rewrite Z.eqb_refl, K, Z.eqb_refl. assert ((0 <? a) = true) by (apply Z.ltb_lt; auto). rewrite H. simpl.
-    rewrite (credited_above _ _ _ _ _ Vr); lia.
+    rewrite (credited_above _ _ _ _ _ _ Vr); lia.
   - destruct (coins_valid_in _ _ _ _ Vr H) as [L _].
     assert ((t0 =? t) = false) by (apply Z.eqb_neq; lia). rewrite H0. simpl. eapply IH; eauto.
 Qed.
 
-Theorem call_refund_exact : forall cs s c s' evs, c_refund c <> MODULE -> coins_valid (-1) (c_tokens c) = true ->
+Definition call_from_msg (s : state) (c : bcall) : bool := existsb (Z.eqb (c_nonce c)) (from_msg s).
+
+Theorem call_refund_exact : forall cs s c s' evs, 0 <= c_refund c -> coins_valid (-1) (c_tokens c) = true ->
   refund_call cs s c = ROk (s', evs) ->
   evs = [EvCallRefund (c_nonce c) (c_refund c) (c_tokens c) cs] /\
   (forall t a, In (t, a) (c_tokens c) -> exists kd, kind_of (toks s) t = Some kd /\
-      get_bal (bal s') (c_refund c, t, refund_which kd) = get_bal (bal s) (c_refund c, t, refund_which kd) + a) /\
+      get_bal (bal s') (c_refund c, t, refund_which kd (call_from_msg s c)) =
+      get_bal (bal s) (c_refund c, t, refund_which kd (call_from_msg s c)) + a) /\
   (forall k, user_key k -> fst (fst k) <> c_refund c -> get_bal (bal s') k = get_bal (bal s) k).
 Proof.
   intros cs s c s' evs NM V H. destruct (refund_call_spec _ _ _ _ _ H) as (_ & _ & Ev & R). repeat split; auto.
-  - intros t a Hin.
+  - intros t a Hin. unfold call_from_msg.
     assert (K : exists kd, kind_of (toks s) t = Some kd).
     { clear -R Hin. revert R. generalize (bal s). induction (c_tokens c) as [|[t0 a0] rest IH]; simpl; intros l R; [contradiction|].
       destruct (kind_of (toks s) t0) as [kd|] eqn:K; [|discriminate]. destruct Hin as [E|Hin]; [inv E; eauto|].
-      destruct (a0 <=? 0); [eauto|]. destruct kd; [mon|]; eauto. }
+      destruct (a0 <=? 0); [eauto|]. destruct kd; [mon; eauto | destruct (existsb _ _); [eauto|discriminate] | destruct (existsb _ _); eauto]. }
     destruct K as (kd & K). exists kd. split; auto.
-    rewrite (refund_coins_sum _ _ _ _ _ NM R). f_equal. eapply credited_valid; eauto.
+    rewrite (refund_coins_sum _ _ _ _ _ _ NM R). f_equal. eapply credited_valid; eauto.
   - intros k Uk Nk. eapply refund_coins_other; eauto.
 Qed.
 
@@ -413,7 +434,9 @@ Qed.
 Theorem call_payload : forall s o s' evs, Inv s -> accepted s o s' evs -> forall c, In c (calls s') ->
   In c (calls s) \/
   (c_nonce c = next_call s /\ c_evnonce c = 0 /\ c_block c = fxh s /\
-   o = BridgeCall (c_sender c) (c_refund c) (c_tokens c) (c_to c) (c_data c) (c_memo c)).
+   (o = BridgeCall (c_sender c) (c_refund c) (c_tokens c) (c_to c) (c_data c) (c_memo c) \/
+    exists value tokens, o = BridgeCallP (c_sender c) (c_refund c) value tokens (c_to c) (c_data c) (c_memo c) /\
+                         c_tokens c = (if 0 <? value then [(0, value)] else []) ++ tokens)).
 Proof.
   intros s o s' evs I A c Hc. apply accepted_exec in A.
   pose proof (exec_rel _ _ _ _ I A) as [_ _ _ _ CS _ _]. destruct (CS c Hc) as [|(E1 & _ & E2 & E3 & E4)]; auto.
